@@ -38,6 +38,12 @@ DISCONNECTS = [
     ('{"text":"Outdated client! Please use 1.12.2 now"}', 'text',
      'Outdated client! Please use 1.12.2 now'),
     ('{"text":"caf\\u00e9 \\u2603"}', 'text', u'café ☃'),
+    # valid JSON that is neither an object nor a string (the array form of a
+    # chat component, a number, null, a flag): reported with the raw text
+    ('["", {"text": "You are banned"}]', 'raw', None),
+    ('42', 'raw', None),
+    ('null', 'raw', None),
+    ('true', 'raw', None),
 ]
 JOIN_REPLIES = [
     (204, ''),
